@@ -62,7 +62,12 @@ pub fn c38_replay() {
         {
             continue;
         }
-        cases.push((name, build_case(name)));
+        let mut smoke = replay_inputs(name)[0].clone();
+        smoke.a.truncate(2);
+        smoke.b.truncate(2);
+        let (case, attempts) = build_case_checked(name, &smoke);
+        rep.count_n("dylib_rebuilds_after_failed_smoke_run", attempts as u64 - 1);
+        cases.push((name, case));
     }
     if util::repo_fingerprint() != fp {
         rep.require(false, "the repository under test changed while the simulator dylibs were being compiled; rerun");
